@@ -100,6 +100,21 @@ func streamCounter(c *Ctx) {
 	for i := 0; i < c.n(2000, 50000); i++ {
 		T := c.rng.Intn(952)
 		n := c.rng.Pick([]int{1500, 16383, 16384, 16385, 100000, 2097151, 2097152, 1 << 24}) + c.rng.Intn(1000)
+		if i%3 == 0 {
+			// every magnitude up to 2^31 (a counter only sees lengths, so a 1 GiB unit costs nothing), also just
+			// around the powers of two and on multiples of the share capacity (seeded round 9: a fast path for
+			// units above 2^27 that forgot the revert snapshot)
+			n = int(c.logU(31))
+			switch c.rng.Intn(4) {
+			case 0:
+				n = 478*int(c.logU(21)) - uvarintLen(n) + c.rng.Intn(3) - 1
+			case 1:
+				n = 1<<uint(c.rng.Range(10, 30)) + c.rng.Intn(5) - 2
+			}
+			if n < 0 {
+				n = 0
+			}
+		}
 		op := fmt.Sprintf("cnt step %d %d", T, n)
 		cc := counterGoto(T)
 		s0, r0 := cc.Size(), cc.Remainder()
@@ -110,6 +125,9 @@ func streamCounter(c *Ctx) {
 		c.oracle()
 		if s1 != sizeOf(T+n+uvarintLen(n)) {
 			c.violate("C13", "", fmt.Sprintf("counter at %d bytes + Add(%d): size %d, expected %d", T, n, s1, sizeOf(T+n+uvarintLen(n))), "", []string{op})
+		}
+		if cc.Size() != s0 || cc.Remainder() != r0 || d != s1-s0 {
+			c.violate("C13", "", fmt.Sprintf("counter at %d bytes: Add(%d) reports +%d (size %d -> %d), and Revert leaves size=%d rem=%d instead of size=%d rem=%d", T, n, d, s0, s1, cc.Size(), cc.Remainder(), s0, r0), "", []string{op})
 		}
 	}
 	// random add / revert histories, compared with a real splitter fed the effective txs
